@@ -224,6 +224,12 @@ where
             let ops = geta(v, "ops");
             // the genuine proof is verified first (same thread), then the perturbed one
             let _ = (p.verify(pk).is_ok(), p.verify_and_decrypt(&lib.sk::<C>(k)).is_ok());
+            // ... then a refused one (another proof's challenge)
+            {
+                let mut bad = pk.encrypt_key_el_gamal_with_proof(&plain(geti(v, "m"))).expect("proof");
+                bad.challenge = oth.challenge;
+                let _ = (bad.verify(pk).is_ok(), bad.verify_and_decrypt(&lib.sk::<C>(k)).is_ok());
+            }
             apply_ops::<C>(&mut p, &oth, ops);
             let want = gets(&v["expect"], "res");
             let mut o = Outcome::pass(json!({}));
